@@ -18,6 +18,7 @@ import (
 	"github.com/gopher-fleece/gleece/v2/definitions"
 	"github.com/gopher-fleece/gleece/v2/graphs/symboldg"
 	"github.com/gopher-fleece/gleece/v2/infrastructure/logger"
+	"github.com/gopher-fleece/gleece/v2/infrastructure/verifhook"
 )
 
 type GleeceFlattenedMetadata struct {
@@ -76,11 +77,16 @@ func (p *GleecePipeline) Graph() symboldg.SymbolGraphBuilder {
 
 func (p *GleecePipeline) Run() (GleeceFlattenedMetadata, error) {
 	err := p.GenerateGraph()
+	verifhook.Emit("GraphGenerated", "ok", err == nil)
 	if err != nil {
 		return GleeceFlattenedMetadata{}, err
 	}
 
 	diags, err := p.Validate()
+	if verifhook.On {
+		verifhook.Emit("Validated", "ok", err == nil, "entities", len(diags), "errorEntities",
+			len(diagnostics.GetDiagnosticsWithSeverity(diags, []diagnostics.DiagnosticSeverity{diagnostics.DiagnosticError})))
+	}
 	if err != nil {
 		return GleeceFlattenedMetadata{}, err
 	}
@@ -93,10 +99,12 @@ func (p *GleecePipeline) Run() (GleeceFlattenedMetadata, error) {
 	// Check if validators returned any errors
 	if len(errDiagEntities) > 0 {
 		// If so, return a formatted list of diagnostics
+		verifhook.Emit("RunFailedOnDiagnostics", "errorEntities", len(errDiagEntities))
 		return GleeceFlattenedMetadata{}, diagnostics.DiagnosticsToError(errDiagEntities)
 	}
 
 	intermediate, err := p.GenerateIntermediate()
+	verifhook.Emit("Reduced", "ok", err == nil, "controllers", len(intermediate.Flat))
 	if err != nil {
 		return GleeceFlattenedMetadata{}, err
 	}
